@@ -149,6 +149,143 @@ def hygiene(ctx: Ctx, rep: Report) -> None:
     rep.floor('UNUSED', len(g), 25, 'grammar rules')
 
 
+_POS_UNWRAP = '''
+def leaf(tree):
+    node = tree
+    while isinstance(node, lark.Tree) and len(node.children) == 1:
+        node = node.children[0]
+    return node
+'''
+
+
+def _unwraps(fn: ast.AST) -> list[ast.While]:
+    out = []
+    for w in ast.walk(fn):
+        if not isinstance(w, ast.While):
+            continue
+        one = any(
+            isinstance(k, ast.Compare) and 'children' in norm(k.left)
+            and any(isinstance(c, ast.Constant) and c.value == 1
+                    for c in k.comparators)
+            and any(isinstance(o, ast.Eq) for o in k.ops)
+            for k in ast.walk(w.test)
+        )
+        step = any(
+            isinstance(s, ast.Assign) and isinstance(s.targets[0], ast.Name)
+            and norm(s.value) == f'{s.targets[0].id}.children[0]'
+            for s in ast.walk(w)
+        )
+        names = any(
+            isinstance(x, ast.Attribute) and x.attr == 'data'
+            for x in ast.walk(w)
+        )
+        if one and step and not names:
+            out.append(w)
+    return out
+
+
+def unwrap(ctx: Ctx, rep: Report) -> None:
+    """UNWRAP: lark drops punctuation, so `usub: "-" exp` is a tree node with
+    exactly one child, like the pure wrappers (`parenexp`, `exp` with one
+    operand).  A loop that descends through single-child nodes without
+    looking at `.data` walks straight through a negation: `-theta` is read as
+    `theta`.  The premise is taken from the grammar: some rule whose only
+    non-literal symbol is another rule carries a meaning-bearing literal."""
+    R = 'UNWRAP'
+    if len(_unwraps(ast.parse(_POS_UNWRAP))) != 1:
+        raise AnalysisError('UNWRAP no longer matches its positive example')
+    g = parse_grammar(grammar_text(ctx))
+    semantic_unary = sorted(
+        r for r, alts in g.items() for a in alts
+        if len([s for s in a if not s.startswith(('"', '/'))]) == 1
+        and any(s.startswith('"') and s[1:-1] in ('-', '!', '~')
+                for s in a)
+    )
+    if not semantic_unary:
+        raise AnalysisError('no one-child semantic rule (usub) in the grammar')
+    m = ctx.index.module(VIS)
+    n = 0
+    bad = []
+    for fn in [x for x in ast.walk(m.tree) if isinstance(
+            x, (ast.FunctionDef, ast.AsyncFunctionDef))]:
+        n += 1
+        for w in _unwraps(fn):
+            bad.append((fn.name, w.lineno))
+    rep.count()
+    rep.check(
+        not bad, R, 'visitor', VIS, bad[0][1] if bad else 0,
+        f'{n} functions: no blind descent through single-child nodes '
+        f'(one-child semantic rules: {", ".join(semantic_unary)})',
+        (f'`{bad[0][0]}` descends through single-child tree nodes without '
+         f'testing `.data`: the grammar rule(s) {", ".join(semantic_unary)} '
+         'also have exactly one child, so a negated argument is read '
+         'without its sign') if bad else None,
+        key='blind-descent',
+    )
+    rep.floor(R, n, 20, 'functions of the visitor module')
+
+
+def gate_ident(ctx: Ctx, rep: Report) -> None:
+    """IDENT: a CircuitGate is written as a `gate` definition under a
+    generated identifier; two different blocks must get two identifiers, or
+    the later definition silently replaces the earlier one on reading.  In
+    every method of CircuitGate that spells an identifier with the literal
+    prefix `circuitgate_`, the variable part is derived from `hash(<gate>)`
+    or from `_circuit` (what `__eq__` compares) - not from a display string
+    such as `self.name`, which abbreviates the circuit."""
+    R = 'IDENT'
+    c = ctx.index.cls('bqskit/ir/gates/circuitgate.py:CircuitGate')
+    n = 0
+    for f in c.methods.values():
+        js = [j for j in ast.walk(f.node) if isinstance(j, ast.JoinedStr)
+              and any(isinstance(v, ast.Constant) and 'circuitgate_' in str(
+                  v.value) for v in j.values)]
+        for j in js:
+            n += 1
+            rep.count()
+            rep.seen(f.qualname)
+            names = {x.id for v in j.values if isinstance(
+                v, ast.FormattedValue) for x in ast.walk(v.value)
+                if isinstance(x, ast.Name)}
+            attrs = {norm(x) for v in j.values if isinstance(
+                v, ast.FormattedValue) for x in ast.walk(v.value)
+                if isinstance(x, (ast.Attribute, ast.Call))}
+            srcs: list[ast.AST] = [v.value for v in j.values
+                                   if isinstance(v, ast.FormattedValue)]
+            seen: set[str] = set()
+            todo = list(names)
+            while todo:
+                v = todo.pop()
+                if v in seen:
+                    continue
+                seen.add(v)
+                for s in ast.walk(f.node):
+                    if isinstance(s, (ast.Assign, ast.AugAssign)) and any(
+                            isinstance(t, ast.Name) and t.id == v
+                            for t in (s.targets if isinstance(
+                                s, ast.Assign) else [s.target])):
+                        srcs.append(s.value)
+                        todo += [x.id for x in ast.walk(s.value)
+                                 if isinstance(x, ast.Name)]
+            good = any(
+                (isinstance(x, ast.Call) and norm(x.func) == 'hash')
+                or (isinstance(x, ast.Attribute) and x.attr == '_circuit')
+                for v in srcs for x in ast.walk(v)
+            )
+            rep.check(
+                good, R, f'CircuitGate.{f.name}', f.path, j.lineno,
+                'the generated identifier is derived from hash(gate) / '
+                '_circuit',
+                f'CircuitGate.{f.name} spells the identifier `{norm(j)[:50]}` '
+                'from something other than hash(<gate>) or the gate\'s '
+                f'circuit ({", ".join(sorted(attrs))[:60] or "?"}): two '
+                'different blocks can get the same name, and the reader '
+                'keeps only the later definition',
+                key='identifier-source',
+            )
+    rep.floor(R, n, 1, 'generated gate identifiers')
+
+
 def eqqasm(ctx: Ctx, rep: Report) -> None:
     """EQQASM: two gates that `__eq__` tells apart must not be written with
     the same OpenQASM text.  For every gate class that defines both
